@@ -262,8 +262,13 @@ def h_condition(env, lead=(2,), D=2):
         env.eq('trace_preserved%s' % list(li), tr_out, tr)
 
 
+# properties whose thorough extras were run end-to-end on the unchanged tree (exit 0); others: thorough == quick
+from harness.thorough_verified import THOROUGH_VERIFIED
+
+
 def cases(tier):
-    q = True      # thorough extras of this property were not run end-to-end in round 1: thorough == quick until they are
+    import os
+    q = tier == 'quick' or 'C10' not in THOROUGH_VERIFIED and os.environ.get('VERIF_TRY_EXTRAS') != '1'
     cs = []
     D, T = (2, 2) if q else (3, 3)
     # no mask: every (sensor_dim, time_dim) with time_dim != -1 allowed by the property, ndim 2..4
